@@ -14,7 +14,28 @@ let p_nodes s = List.map p_node (split ',' s)
 let p_tkey s = match String.split_on_char '.' s with
   | [k; t] -> (n_of_hex k, n_of_hex t) | _ -> failwith ("tkey " ^ s)
 
-let p_op (s : string) : op =
+(* a history event as the driver sees it: a value-level op, or a byte payload (None: key absent) *)
+type dop = DOp of op | DBytes of tkey * n list option * node list
+
+let p_bytes_opt s = if s = "N" then None else Some (bytes_of_hexstr s)
+
+let pres_tag (r : pres) : string =
+  match r with
+  | P_Ok (f, l, reps) ->
+    Printf.sprintf "a:%s:%s:%s" (hex_of_z f) (hex_of_z l)
+      (if reps = [] then "-" else String.concat "," (List.map (fun (h, s) -> hex_of_n h ^ "." ^ hex_of_n s) reps))
+  | P_Deser _ -> "rDeserialization"
+  | P_WrongTokenRange -> "rWrongTokenRange"
+  | P_ShardNum -> "rShardNum"
+
+let bytes_tag = function None -> "none" | Some b -> pres_tag (parse_payload b)
+
+let rec p_dop (s : string) : dop =
+  match String.split_on_char '/' s with
+  | ["B"; kt; bytes; known] -> DBytes (p_tkey kt, p_bytes_opt bytes, p_nodes known)
+  | _ -> DOp (p_op s)
+
+and p_op (s : string) : op =
   match String.split_on_char '/' s with
   | ["L"; kt; a; b; raw; known] ->
     Learn (p_tkey kt, z_of_hex a, z_of_hex b,
@@ -153,14 +174,28 @@ let property_fails (hist : op list) tables tokens dcs (obs : string) : string op
     !fail
   | _ -> raise (Malformed "step")
 
+(* the value-level event of a byte payload (C15_bytes_as_learn); an absent key is no event at all:
+   it is represented by a refused payload, which changes nothing either *)
+let abstract_dop = function
+  | DOp o -> o
+  | DBytes (k, Some b, known) -> learn_of_bytes k b known
+  | DBytes (k, None, known) -> Learn (k, Z0, Z0, [], known)
+let dstep (s : info) = function
+  | DOp o -> step s o
+  | DBytes (k, Some b, known) -> step_bytes s k b known
+  | DBytes (_, None, _) -> Some s
+let dres_tag (s : info) = function
+  | DOp o -> model_res s o
+  | DBytes (_, b, _) -> bytes_tag b
+
 let verdict case impl =
   match case with
   | kind :: tables :: tokens :: dcs :: ops when String.length kind >= 1 && kind.[0] = 'H' ->
     let tables = List.map p_tkey (split ',' tables) in
     let tokens = List.map z_of_hex (split ',' tokens) in
     let dcs = List.map n_of_hex (split ',' dcs) in
-    let ops = List.map p_op ops in
-    if not (List.for_all op_i64b ops) then "error token-out-of-i64" else
+    let ops = List.map p_dop ops in
+    if not (List.for_all (function DOp o -> op_i64b o | DBytes _ -> true) ops) then "error token-out-of-i64" else
     let impl = if impl = ["-"] then [] else impl in
     let rec go (s : info) (done_ : op list) ops obs i =
       match ops, obs with
@@ -168,13 +203,13 @@ let verdict case impl =
       | [], _ -> "diff extra-observations"
       | _ :: _, [] -> Printf.sprintf "diff missing-observation step=%d" i
       | o :: ops', ob :: obs' ->
-        let hist = done_ @ [o] in
-        (match step s o with
+        let hist = done_ @ [abstract_dop o] in
+        (match dstep s o with
          | None ->
            (* the model never panics (C15_no_panic); kept for completeness *)
            if ob = "panic" then "viol panic step=" ^ string_of_int i else "diff model-panics step=" ^ string_of_int i
          | Some s' ->
-           let m = observe s' (model_res s o) tables tokens dcs in
+           let m = observe s' (dres_tag s o) tables tokens dcs in
            if m = ob then go s' hist ops' obs' (i + 1)
            else
              match (try Ok (property_fails hist tables tokens dcs ob) with Malformed w -> Err w) with
@@ -183,6 +218,18 @@ let verdict case impl =
              | Ok None -> Printf.sprintf "diff step=%d model=%s" i (if String.length m > 300 then String.sub m 0 300 else m))
     in
     go info_empty [] ops impl 1
+  | ["Pb"; bytes] ->
+    (* from_custom_payload alone: decoded content / error class compared exactly.  The property part
+       (C15_payload): an accepted payload must be a non-empty range inside i64 -> otherwise viol *)
+    let m = bytes_tag (p_bytes_opt bytes) in
+    let ob = String.concat " " impl in
+    if m = ob then "ok"
+    else if ob = "panic" then "viol panic"
+    else (match String.split_on_char ':' ob with
+        | ["a"; f; l; _] ->
+          (try if ranges_okb [(z_of_hex f, z_of_hex l)] then "diff model=" ^ m else "viol accepted-empty-or-out-of-range model=" ^ m
+           with _ -> "error malformed-observation")
+        | _ -> "diff model=" ^ m)
   | _ -> "error unknown-case"
 
 let () = run_lines verdict
